@@ -182,6 +182,10 @@ def run(ctx):
                 f.rebin(g2.copy() * u.Hz)
                 f.rebin(g[::-1].copy() * u.Hz)
                 f.rebin(g.copy() * u.Hz)
+                f.normalize()                      # normalised *after* having been re-binned ...
+                f.rebin(g.copy() * u.Hz)           # ... the next re-binning must use the normalised response
+                f.response = f.response * 3.0      # response re-assigned
+                f.rebin(g2.copy() * u.Hz)
                 ctx.event('rebin:same-filter-again')
         except Exception as exc:
             ctx.violation('rebin-raised', 'Filter.rebin raised: %r' % (exc,), {'filter_wav': fw, 'grid_nu': g, 'kind': kind})
